@@ -806,18 +806,29 @@ package ion
 //@ ensures[C12,C19] old(w.err) != nil ==> err == old(w.err) && w.err == old(w.err)
 //@ ensures[C12,C19] err != nil ==> w.err != nil
 
+// The integer encoding is sign nibble, length, big-endian magnitude, for every int64 (C13, C01).
 //@ func (*binaryWriter).WriteInt
 //@ modifies *
+//@ atcall[C01,C13] (*binaryWriter).writeValue val == 0 ==> len(a2) == 1 && a2[0] == 0x20
+//@ atcall[C01,C13] (*binaryWriter).writeValue val != 0 ==> len(a2) == 1+int(specUintLen(specMag(val))) && a2[0] == specIntCode(val)|byte(specUintLen(specMag(val)))
+//@ atcall[C01,C13] (*binaryWriter).writeValue forall k int :: val != 0 && 0 <= k && k < int(specUintLen(specMag(val))) ==> a2[1+k] == specUintByte(specMag(val), specUintLen(specMag(val)), uint64(k))
 //@ ensures[C12,C19] old(w.err) != nil ==> err == old(w.err) && w.err == old(w.err)
 //@ ensures[C12,C19] err != nil ==> w.err != nil
 
 //@ func (*binaryWriter).WriteUint
 //@ modifies *
+//@ atcall[C01,C13] (*binaryWriter).writeValue val == 0 ==> len(a2) == 1 && a2[0] == 0x20
+//@ atcall[C01,C13] (*binaryWriter).writeValue val != 0 ==> len(a2) == 1+int(specUintLen(val)) && a2[0] == 0x20|byte(specUintLen(val))
+//@ atcall[C01,C13] (*binaryWriter).writeValue forall k int :: val != 0 && 0 <= k && k < int(specUintLen(val)) ==> a2[1+k] == specUintByte(val, specUintLen(val), uint64(k))
 //@ ensures[C12,C19] old(w.err) != nil ==> err == old(w.err) && w.err == old(w.err)
 //@ ensures[C12,C19] err != nil ==> w.err != nil
 
+// A big integer is never handed to the fixed-width paths unless it fits them (C13).
 //@ func (*binaryWriter).WriteBigInt
 //@ modifies *
+//@ atcall[C13] (*binaryWriter).WriteInt val != nil && val.IsInt64() && a1 == val.Int64()
+//@ atcall[C13] (*binaryWriter).WriteUint val != nil && val.IsUint64() && a1 == val.Uint64()
+//@ atcall[C13] (*binaryWriter).writeBigInt a1 == val
 //@ ensures[C12,C19] old(w.err) != nil ==> err == old(w.err) && w.err == old(w.err)
 //@ ensures[C12,C19] err != nil ==> w.err != nil
 
